@@ -165,7 +165,7 @@ def run(ctx):
     rng = ctx.rng
     from pykdebugparser.pykdebugparser import PyKdebugParser
     prev = None
-    for i in range(ctx.pick(40, 600)):
+    for i in range(ctx.pick(40, 3000)):
         static_map = i % 2 == 0
         dump = gen_dump(rng, static_map)
         base = PyKdebugParser()
